@@ -452,12 +452,12 @@ def c19(tier, seed):
     variants = ALL_VARIANTS if not q else [("release", "checks"), ("dev", ""), ("dev", "checks,no_copy_impls")]
     for vi, v in enumerate(variants):
         tag = "%s-%s" % (v[0], v[1].replace(",", "+") or "default")
-        units += shards("hist-" + tag, "hist", 2 if q else 6, seed + vi, dict(histories=4 if q else 12, len=40), variant=v)
+        units += shards("hist-" + tag, "hist", 1 if q else 6, seed + vi, dict(histories=4 if q else 12, len=40), variant=v)
         units += shards("dirty-" + tag, "dirty", 1, seed + vi, dict(), variant=v)
         units += cfg_shards("copy-" + tag, "copy", NR, seed + vi, dict(rpaths=RP, wpaths=WP, full=0),
-                            pick=pick_cfgs(NR, 2 if q else 8, seed + vi), variant=v)
+                            pick=pick_cfgs(NR, 1 if q else 8, seed + vi), variant=v)
         units += cfg_shards("codes-" + tag, "codes", 15, seed + vi, dict(mode="alone", full=0),
-                            pick=pick_cfgs(15, 2 if q else 6, seed + vi), variant=v)
+                            pick=pick_cfgs(15, 1 if q else 6, seed + vi), variant=v)
         units += cfg_shards("iow-" + tag, "wstates", NW, seed + vi, dict(paths=WP, ops="c12", full=0),
                             pick=pick_cfgs(NW, 2 if q else 8, seed + vi), variant=v)
         units += edge_units(tier, seed + vi, variant=v, n=3)
